@@ -1022,6 +1022,80 @@ Section Main.
     - exfalso. apply Hany. reflexivity.
   Qed.
 
+  (* ---------- the namespace law of the start tags (what comps_doc.QNamesX checks on libyang's output) ---------- *)
+  (* [TagsOK st n]: in the start tag the printer writes for n under the declarations st - and in those of all its
+     descendants - no prefix is defined twice, no prefix of the scope is re-defined, the default namespace is the one of the
+     node's module, and the prefix of every metadata attribute is bound, in the scope of the element, to the namespace of the
+     module of its annotation (the printer's own view: open_attrs is what xml_node renders) *)
+  Fixpoint TagsOK (st : nsstack) (n : dnode) {struct n} : Prop :=
+    match n with
+    | DN s v d m ch =>
+        let '(attrs, st') := open_attrs t st s m in
+        NoDup (sprefs (decls_of attrs)) /\
+        (forall q u, In (PDecl (Some q) u) attrs -> ~ In q (sprefs st)) /\
+        std_default_ns st' = node_ns t s /\
+        (forall q nm v, In (PMeta q nm v) attrs ->
+           exists m0 mi, In (m0, mi) (dt_mods t) /\ In (mi_name mi ++ 58 :: nm, v) m /\ std_prefix_ns st' q = Some (mi_ns mi)) /\
+        (fix all (l : list dnode) : Prop := match l with [] => True | c :: l' => TagsOK st' c /\ all l' end) ch
+    end.
+
+  Lemma sprefs_rev l : forall x, In x (sprefs (rev l)) <-> In x (sprefs l).
+  Proof.
+    intro x. unfold sprefs. rewrite !in_flat_map. split; intros (e & He & Hx); exists e; (split; [|exact Hx]).
+    - apply in_rev. exact He.
+    - apply in_rev in He. exact He.
+  Qed.
+
+  Lemma NoDup_app_l {A} (a b : list A) : NoDup (a ++ b) -> NoDup a.
+  Proof.
+    induction a as [|x a IHa]; intro H; [constructor|]. cbn [app] in H. inversion H as [|? ? Hn Hr]; subst.
+    constructor; [intro Hx; apply Hn, in_or_app; left; exact Hx|exact (IHa Hr)].
+  Qed.
+
+  Theorem tags_ok n : forall p st, Placed p n -> DocN n -> Inv st -> TagsOK st n.
+  Proof.
+    induction n as [s v d m ch IH] using dnode_ind'. intros p st HC HD HI.
+    rewrite Placed_unfold in HC. destruct HC as ((i & Hl & Hpar & Hterm) & HCch).
+    rewrite DocN_unfold in HD. destruct HD as (Hany & Hval & Hmeta & Hnd & HDch).
+    pose proof (names_ok_entry _ _ _ _ Hnames Hl) as NF.
+    destruct (nf_mod _ _ _ NF) as (mi & Hmi & Emi).
+    cbn [TagsOK]. destruct (open_attrs t st s m) as [attrs st'] eqn:Eo.
+    destruct (open_attrs_spec t V Hmods st s m attrs st' HI Hmeta Hnd (ex_intro _ mi (conj Hmi Emi)) Eo)
+      as (A1 & A2 & A3 & A4 & A5 & A6 & A7 & A8).
+    assert (Hsp : sprefs st' = sprefs (rev (decls_of attrs)) ++ sprefs st) by (rewrite A3; apply sprefs_app).
+    destruct A2 as [A2 A2'].
+    split; [|split; [|split; [exact A6|split]]].
+    - (* no prefix twice in the tag *)
+      rewrite Hsp in A2. apply NoDup_app_l in A2.
+      assert (E : sprefs (rev (decls_of attrs)) = rev (sprefs (decls_of attrs))).
+      { induction (decls_of attrs) as [|e l IHl]; [reflexivity|]. cbn [rev]. rewrite sprefs_app, IHl.
+        unfold sprefs at 2 3. cbn [flat_map]. rewrite app_nil_r. destruct (fst e); reflexivity. }
+      rewrite E in A2. apply NoDup_rev in A2. rewrite rev_involutive in A2. exact A2.
+    - (* no prefix of the scope is defined again *)
+      intros q u Hin Hq. rewrite Hsp in A2.
+      assert (Hd : In q (sprefs (rev (decls_of attrs)))).
+      { apply sprefs_rev. apply (sprefs_in _ q u). unfold decls_of. apply in_flat_map. exists (PDecl (Some q) u). split; [exact Hin|left; reflexivity]. }
+      clear -A2 Hd Hq. induction (sprefs (rev (decls_of attrs))) as [|x l IHl]; [contradiction|].
+      cbn [app] in A2. inversion A2 as [|? ? Hn Hr]; subst. destruct Hd as [->|Hd]; [apply Hn, in_or_app; right; exact Hq|exact (IHl Hr Hd)].
+    - (* the prefixes of the metadata attributes *)
+      intros q nm v0 Hin. unfold open_attrs in Eo.
+      destruct (print_ns_default st (node_ns t s)) as [d0 st1] eqn:Ed. destruct (print_metas t st1 m) as [r st2] eqn:Er.
+      inversion Eo; subst attrs st2.
+      assert (HI1 : Inv st1).
+      { unfold print_ns_default in Ed. destruct (ns_has_default st (node_ns t s)); inversion Ed; subst; exact HI. }
+      destruct (print_metas_spec t V Hmods m _ _ _ HI1 Hmeta Hnd Er) as (_ & _ & _ & B4 & _).
+      assert (Hr : In (PMeta q nm v0) r).
+      { apply in_app_or in Hin. destruct Hin as [Hin|Hin]; [|exact Hin].
+        unfold print_ns_default in Ed. destruct (ns_has_default st (node_ns t s)); inversion Ed; subst; [contradiction|].
+        destruct Hin as [Hin|[]]. discriminate Hin. }
+      destruct (B4 q nm v0 Hr) as (m0 & mi0 & H1 & H2 & H3). exists m0, mi0. split; [exact H1|]. split; [exact H3|].
+      apply std_prefix_ns_in; [exact A2|exact H2].
+    - (* the descendants, under the declarations of this tag *)
+      assert (HI' : Inv st') by (split; assumption).
+      clear -IH HCch HDch HI'. induction ch as [|c l IHl]; [exact I|].
+      inversion IH; subst. inversion HCch; subst. inversion HDch; subst. split; [eauto|]. apply IHl; assumption.
+  Qed.
+
   Lemma Inv_nil : Inv [].
   Proof. split; constructor. Qed.
 
